@@ -31,6 +31,12 @@ CLAIMED['C02'] = dict(
     text='Partial by design: (1) every cell of static_inflate.h\'s four lookup tables is re-decoded by an independent canonical-code reference for the code it is installed for - the RFC fixed code, and the header stored in this configuration\'s hufftables_default (what header_matches_pregen compares the input with) - in the default, IGZIP_HIST_SIZE=8192 and LONGER_HUFFTABLE builds: symbols incl. packed multi-literal cells, consumed bit counts, long-code redirects, invalid markers; where header_matches_pregen is compiled to never match, the pregen tables carry no obligation; (2) RFC length/distance tables in C and asm and the hard-coded offsets the asm decoders use into them; (3) all lookup-entry bit-layout constants, block states, status codes and struct offsets agree between igzip_inflate.c (which builds the tables) and the asm decoders (which read them). Decoding of arbitrary valid streams (dynamic table construction, decode loops) is NOT decided.',
     note='Trusts clang/nasm constant evaluation and the checker\'s RFC 1951 reference; symbol 284 with extra value 31 may be rejected or decoded as 258 (zlib-compatible).')
 
+CLAIMED['C04'] = dict(
+    category='other', design_ref='DESIGN.md section 3, C04',
+    technique='static analysis: exact evaluation of CRC table/constant initialisers (from compiled and assembled objects) against GF(2)[x] arithmetic: byte-CRC tables, x^e mod P congruence of folding constants per fold geometry, Barrett pairs, merge tables; IR lint for table pairing/inversion; constant-bound arithmetic for Adler-32',
+    text='Partial by design: decides that all 12 CRC lookup tables are the byte-CRC of the documented polynomial (reference anchored to published check values); that every folding constant rk* of all 30 PCLMUL kernels - including the _01/_02/by4/by8 variants the host never dispatches - is congruent to x^e mod P for the exponent its fold distance prescribes, and rk7/rk8 are the Barrett pair, by formula per representation; the merge tables of the two crc32-instruction iSCSI kernels; that each *_base function reads exactly its own table with the documented inversion convention; Adler modulus 65521 in C and asm and that the deferred-modulo block sizes cannot overflow the accumulators; (with C05 machinery) that checksum kernels store nothing outside their stack frame. That the folding code itself (pclmulqdq immediates, tails) computes the CRC and that seeds chain is NOT decided.',
+    note='Trusts nasm/clang constant evaluation, tools/gf2.py, and the catalogue check values used to anchor the reference polynomials.')
+
 NOT_APPLICABLE = {
     'C07': 'quantifies over call histories and buffer schedules; resumption correctness depends on run-time counts carried in state, no structural clause beyond the state-enum mirror already checked under C01',
     'C09': 'algebraic property of run-time matrices (invertibility, products over GF(2^8)); nothing in the shape of the code decides it, and loop summarisation over symbolic (m,k) is out of reach of the analyses used',
